@@ -223,9 +223,6 @@ class C08(Check):
             else:
                 value = np.asarray([v.encode("utf-8") for v in vals], dtype="S")
                 want = [b.decode("utf-8", "replace") for b in value.tolist()]
-            if count == 1 and not p.get("allow_known"):
-                res.count("excluded_by_finding")  # one-entry text array reads back as a bare string
-                return
         nul = any("\x00" in w for w in ([want] if isinstance(want, str) else want))
         try:
             if p["via"] == "add":
